@@ -76,6 +76,25 @@ def hazards():
     hz.append(("hook group cycle of length 2", "error_exit", groups([1, 0])))
     hz.append(("hook group cycle of length 3", "error_exit", groups([1, 2, 0])))
 
+    # lassos: the group named by the certificate only LEADS to a cycle (g0 -> g1 -> g1, g0 -> g1 -> g2 -> g1, ...)
+    hz.append(("hook group leading to a self-including group", "error_exit", groups([1, 1])))
+    hz.append(("hook group leading to a cycle of length 2", "error_exit", groups([1, 2, 1])))
+    hz.append(("hook group leading to a cycle of length 3 after two steps", "error_exit", groups([1, 2, 3, 4, 2])))
+
+    def account_lasso(cfg, sc):
+        cfg["group"] = [{"name": "ag0", "hooks": ["ag1"]}, {"name": "ag1", "hooks": ["ag2"]}, {"name": "ag2", "hooks": ["ag1"]}]
+        cfg["account"][0]["hooks"] = list(cfg["account"][0].get("hooks") or []) + ["ag0"]
+        return cfg
+    hz.append(("account hook group leading to a cycle", "error_exit", account_lasso))
+
+    def diamond(cfg, sc):
+        # one group reached along two paths, and listed twice: no cycle, must load
+        cfg["group"] = [{"name": "d0", "hooks": ["d1", "d2"]}, {"name": "d1", "hooks": ["d3"]}, {"name": "d2", "hooks": ["d3"]},
+                        {"name": "d3", "hooks": ["post-operation"]}]
+        cfg["certificate"][0]["hooks"] = cfg["certificate"][0]["hooks"] + ["d0", "d3", "d0"]
+        return cfg
+    hz.append(("hook groups forming a diamond (shared sub-group, no cycle)", "running", diamond))
+
     def unused_cycle(cfg, sc):
         cfg["group"] = [{"name": "u1", "hooks": ["u2"]}, {"name": "u2", "hooks": ["u1"]}]
         return cfg
@@ -263,18 +282,26 @@ def run(ctx):
             files["stderr.txt"] = results[o]["runs"][0]["stderr_tail"]
         rp = save_replay("C19", "pt%05d" % ln, files)
         ctx.verdict.violation("%s at %s" % (labs, json.dumps(ev)[:300]), rp)
+    # every small hook-group graph (Groups.tla) through the real configuration loader
+    import groupcheck
+    gbad, gcov = groupcheck.run_family("C19/groups", ctx.tier, ctx.seed, groupcheck.LABELS_C19)
+    for labs, ev in gbad[:10]:
+        rp = save_replay("C19", "groups%03d" % len(seen), {"graph.json": ev, "violated.json": labs})
+        seen.add(("groups", len(seen)))
+        ctx.verdict.violation("%s: hook groups %s listed as %s by the %s: %s %s" % (labs, json.dumps(ev["bodies"]), ev["start"], ev["where"], ev["obs"]["kind"], ev["detail"]), rp)
     outcomes = {}
     for e in lines[n_period:]:
         outcomes[e["outcome"]] = outcomes.get(e["outcome"], 0) + 1
     cov = {"states": r["distinct"], "transitions": r["generated"], "traces_validated_against_impl": len(lines),
            "samples": [lines[5], lines[n_period - 1], lines[n_period], lines[-1]], "period_strings_judged": n_period,
-           "period_strings_enumerated_by_tlc": len(strings), "daemon_starts_judged": len(results), "outcomes": outcomes,
+           "period_strings_enumerated_by_tlc": len(strings), "daemon_starts_judged": len(results), "outcomes": outcomes, "hook_group_graphs": gcov,
            "exhaustive": False,
            "rule": "TLC enumerates every string of length <= %d over {0,1,9,s,m,w,x}; plus boundary numerals around 2^64/multiplier and random strings; each is parsed by "
-                   "the real parse_duration and judged by Period.tla (grammar, value as minutes+seconds, no panic). Structural hazards (group cycles 1..3, include "
+                   "the real parse_duration and judged by Period.tla (grammar, value as minutes+seconds, no panic). Structural hazards (group cycles 1..3 through the named group, lassos that only lead to a cycle, via certificate and account lists, diamonds; include "
                    "cycles 1..3, rate limits with number 0 / huge periods / periods above the uptime, overflowing periods) and field-by-field mutations of a valid "
                    "configuration are given to the real daemon with a reachable CA: the outcome (first attempt done | error exit with message | crash | hang) is "
-                   "judged by the specification." % maxlen}
+                   "judged by the specification. Groups.tla enumerates every graph of 3 groups and 2 hooks with bodies of at most one name (exhaustive) and of at most two "
+                   "names (sampled), cyclic or not; each is loaded by the real MainEventLoop::new through the certificate's or the account's hook list." % maxlen}
     return {"coverage": cov, "assumptions": [
         "byte-level TOML fuzzing is out of scope of the technique (DESIGN.md C19); field-level mutations are a catalogue, not a proof",
         "values of numerals longer than 5 digits exceed TLC's integers: for those only accept/reject-by-grammar and crash-freedom are judged",
